@@ -51,6 +51,11 @@ def line_is_list_item(line: str) -> bool:
     if not stripped:
         return False
 
+    # A thematic break such as `* * *` or `- - -` takes precedence over a list item.
+    compact = "".join(stripped.split())
+    if len(compact) >= 3 and compact[0] in "*-_" and compact == compact[0] * len(compact):
+        return False
+
     # Unordered list: -, *, + followed by space or tab
     if stripped[0] in "-*+":
         return len(stripped) > 1 and stripped[1] in " \t"
